@@ -641,6 +641,42 @@ def guard_name_rule(ctx, rule, callers=None):
     return n
 
 
+SCRATCH_REF = os.path.join(os.path.dirname(os.path.dirname(os.path.abspath(__file__))), 'scratchsizes.json')
+
+
+def scratch_sizes(f):
+    """[(allocator text, constant size)] for fixed-size scratch allocations `np.empty(<int>, ...)`"""
+    out = []
+    for c in walk_no_nested(f):
+        if isinstance(c, ast.Call) and callee(c) in ('np.empty', 'np.zeros', 'bytearray') and c.args \
+                and isinstance(c.args[0], ast.Constant) and isinstance(c.args[0].value, int):
+            out.append([norm(c.func), c.args[0].value])
+    return out
+
+
+def scratch_capacity_rule(ctx, rule, callers=None):
+    """a fixed-size scratch buffer (varint / header staging) is not smaller than on the pinned tree: the writers into
+    such buffers (NumpyIO.write_byte) drop bytes past the end silently"""
+    if not os.path.exists(SCRATCH_REF):
+        return 0
+    ref = json.load(open(SCRATCH_REF))
+    n = 0
+    for m, q, f in ctx.repo.functions():
+        name = '%s.%s' % (m.name, q)
+        if name not in ref:
+            continue
+        if callers is not None and not any(name == c or name.startswith(c + '.') or c == m.name for c in callers):
+            continue
+        cur = scratch_sizes(f)
+        if len(cur) != len(ref[name]):
+            continue
+        for (a, size), (a0, size0) in zip(cur, ref[name]):
+            n += 1
+            ctx.ob(rule, '%s:scratch-buffer-%s-not-smaller-than-%d' % (name, a0, size0), size >= size0,
+                   '%s(%d) where the reference tree allocates %d bytes: a header that no longer fits is cut off without an error' % (a, size, size0), m.loc(f))
+    return n
+
+
 STATE_FLAGS = {
     ('cencoding._assemble_objects', 'have_null'): 'state of the list being assembled (does the current list hold a null), '
                                                   'deliberately re-evaluated per element; not a summary of the loop',
@@ -750,3 +786,4 @@ def general_rules(ctx, tag, callers):
     loop_store_rule(ctx, tag + '.CS12', callers=callers)
     stmt_guard_rule(ctx, tag + '.CS13', callers=callers)
     guard_name_rule(ctx, tag + '.CS14', callers=callers)
+    scratch_capacity_rule(ctx, tag + '.CS15', callers=callers)
